@@ -765,6 +765,59 @@ func (c *checker) perio() {
 			}
 		}
 	}
+	// Several sessions sharing a period: removing one session's periodic URR must leave the others registered
+	{
+		c.w.K.Reset()
+		c.evals++
+		a, b := seids[0], seids[1]
+		ida, idb1, idb2 := id+1, id+2, id+3
+		id += 3
+		desc := map[string]interface{}{"op": "CreateURR x3 then RemoveURR", "sessions": fmt.Sprintf("%#x: urr %d; %#x: urr %d,%d", a, ida, b, idb1, idb2), "period_s": 3600}
+		c.nontr.Add(fmt.Sprint("perio-shared", desc))
+		mk := func(u uint32) *ie.IE {
+			return ie.NewCreateURR(ie.NewURRID(u), ie.NewMeasurementMethod(0, 1, 0), ie.NewReportingTriggers(0x01, 0x00), ie.NewMeasurementPeriod(P1))
+		}
+		ok := true
+		for _, x := range []struct {
+			s uint64
+			u uint32
+		}{{a, ida}, {b, idb1}, {b, idb2}} {
+			if err := c.w.G.CreateURR(x.s, mk(x.u)); err != nil {
+				rep("perio:create-error", err.Error(), desc)
+				ok = false
+			}
+		}
+		if ok {
+			wait()
+			q := c.queried(P1)
+			for _, k := range [][2]uint64{{a, uint64(ida)}, {b, uint64(idb1)}, {b, uint64(idb2)}} {
+				if !q[k] {
+					rep("perio:shared-period-registration", fmt.Sprintf("three periodic URRs of two sessions share a period: (%#x, %d) is not queried on its tick", k[0], k[1]), desc)
+				}
+			}
+			if _, err := c.w.G.RemoveURR(a, ie.NewRemoveURR(ie.NewURRID(ida))); err != nil {
+				rep("perio:remove-error", err.Error(), desc)
+			}
+			wait()
+			q = c.queried(P1)
+			if q[[2]uint64{a, uint64(ida)}] {
+				rep("perio:remove-keeps-registration", "a removed URR is still queried on a tick of its period", desc)
+			}
+			for _, k := range [][2]uint64{{b, uint64(idb1)}, {b, uint64(idb2)}} {
+				if !q[k] {
+					rep("perio:removal-unregisters-others", fmt.Sprintf("after the only periodic URR of session %#x was removed, (%#x, %d) of the other session is no longer queried on the tick of the shared period", a, k[0], k[1]), desc)
+				}
+			}
+			if _, err := c.w.G.RemoveURR(b, ie.NewRemoveURR(ie.NewURRID(idb1))); err != nil {
+				rep("perio:remove-error", err.Error(), desc)
+			}
+			wait()
+			q = c.queried(P1)
+			if !q[[2]uint64{b, uint64(idb2)}] || q[[2]uint64{b, uint64(idb1)}] {
+				rep("perio:removal-unregisters-others", "after one of two periodic URRs of a session was removed, the tick does not query exactly the remaining one", desc)
+			}
+		}
+	}
 	// Update URR: the registration follows the triggers of the update
 	for _, before := range []bool{false, true} {
 		for _, after := range []bool{false, true} {
@@ -817,7 +870,7 @@ func RunC03(tier string) {
 	run.Set("evaluations", c.evals)
 	run.Set("distinct_nontrivial", c.nontr.Len())
 	run.Set("order_variants", c.orderN)
-	run.Set("rule", "Create/Update QER, URR, BAR grouped IEs: every presence subset of the optional children, child orders (all permutations up to 5/6 children, reversal + adjacent transpositions beyond), all 16 gate values, MBR/GBR over all UL != DL pairs of {0,1,255,256,2^32-1,2^32,2^40-1,0x0102030405}, QFI 0..63, every reporting-trigger bit in 2- and 3-octet form, every threshold/quota flag subset x 64-bit boundary values, BAR delay/count/id 0..255; thorough adds all 40320 orders of the eight QER children, 2^k-1/2^k/2^k+1 bit rates for every k<=40 and a 24x24 MBR x GBR product, QFI x RQI x PPI, every subset of the first trigger octet and every pair of trigger bits, all 256 measurement-information octets, threshold x quota flag-subset pairs over a 12-value 64-bit set; periodic registration: Create URR with PERIO x every other single trigger bit x 2/3-octet form (PERIO alone and no trigger under all 24 orders of the four child IEs), tick of its period and of another period read from the simulated kernel's GET_MULTI_REPORTS requests, removal, and the four Update URR transitions of the PERIO bit; every evaluated shape is distinct")
+	run.Set("rule", "Create/Update QER, URR, BAR grouped IEs: every presence subset of the optional children, child orders (all permutations up to 5/6 children, reversal + adjacent transpositions beyond), all 16 gate values, MBR/GBR over all UL != DL pairs of {0,1,255,256,2^32-1,2^32,2^40-1,0x0102030405}, QFI 0..63, every reporting-trigger bit in 2- and 3-octet form, every threshold/quota flag subset x 64-bit boundary values, BAR delay/count/id 0..255; thorough adds all 40320 orders of the eight QER children, 2^k-1/2^k/2^k+1 bit rates for every k<=40 and a 24x24 MBR x GBR product, QFI x RQI x PPI, every subset of the first trigger octet and every pair of trigger bits, all 256 measurement-information octets, threshold x quota flag-subset pairs over a 12-value 64-bit set; periodic registration: Create URR with PERIO x every other single trigger bit x 2/3-octet form (PERIO alone and no trigger under all 24 orders of the four child IEs), tick of its period and of another period read from the simulated kernel's GET_MULTI_REPORTS requests, removal, three URRs of two sessions sharing a period with removals in between, and the four Update URR transitions of the PERIO bit; every evaluated shape is distinct")
 	run.Set("exhaustive", true)
 	run.Set("samples", c.smp.List())
 	run.Set("bound", "value alphabets are boundary sets; the netlink measurement-period attribute is not compared (not in the property's list)")
